@@ -54,7 +54,7 @@ class C08(LZCheckMixin, PropertyCheck):
 
     def shrink_candidates(self, case):
         parts = case.line.split(" ")
-        if parts[2][0] == "P":
+        if parts[2][0] == "P" or "+" in parts[2]:
             for t in shrink_ptok(parts[2]):
                 yield Case("%s 0 %s" % (parts[0], t), case.stream)
             return
